@@ -170,6 +170,10 @@ def spec_binop_nested(S, I):
 CORES["binop_nested"] = (CORES["binop_nested"][0], "", spec_binop_nested, {})
 CORES["void_in_variable"] = (CORES["void_in_variable"][0], "", spec_void_var, {})
 
+# cores whose mismatch table is written for the literal kinds listed in GENERIC_LITS only (tuples and lists have element-wise rules of their own): same kinds in both tiers
+SPEC_KINDS_FIXED = {"generic_tuple_result_unused_call", "generic_tuple_result_in_tuple_literal", "generic_tuple_result_trailing_in_closure", "generic_tuple_negation_unused_call", "generic_tuple_negation_stored",
+                    "compound_sub_between_aliases", "compound_mul_after_comparison", "compound_sub_on_blob_field", "compound_add_between_aliases", "generic_tuple_local_not_returned",
+                    "generic_inner_closure_and_outer_parameter", "operand_through_self", "void_inside_tuple_literal", "void_inside_list_literal"}
 _CTX = {}
 
 
@@ -200,7 +204,7 @@ def build_jobs(tier):
                     if "CORE" in ln:
                         ind = ln[:len(ln) - len(ln.lstrip())]; out.append(ind + indent_like(stmt, ind))
                     else: out.append(ln)
-                jobs.append({"name": "%s@%s" % (cn, pn), "core": cn, "placement": pn, "text": decls + "\n".join(out), "spec": ("STMT_CORES", cn), "lits": GENERIC_LITS.get(cn, lits) if q or cn == "tuple_elementwise" else lits})
+                jobs.append({"name": "%s@%s" % (cn, pn), "core": cn, "placement": pn, "text": decls + "\n".join(out), "spec": ("STMT_CORES", cn), "lits": GENERIC_LITS.get(cn, lits) if (q or cn == "tuple_elementwise" or cn in SPEC_KINDS_FIXED) else lits})
     return jobs
 
 
